@@ -87,6 +87,11 @@ def worker(args):
         # (d) fusion
         for vt, info in ([] if only_qastle else variants.fusion_variants(tree)):
             vs.append((f"fused-{info['fused']}", vt, tr(vt, backend, mds)))
+        # (e) the same Python ast with every group of equal sub-expressions shared as ONE node object
+        if not only_qastle:
+            dag, nshared = variants.share_equal_subtrees(wrap_metadata(parse_query(text), mds))
+            if nshared:
+                vs.append(("shared-nodes", text, translate_ast(dag, backend, query_text=text)))
         for kind, vt, pkg in vs:
             names = []
             if kind.startswith("alpha:"):
